@@ -47,6 +47,8 @@ Base(o) == { WReg(o), WRec(o), WBuy(o, 1), WBuy(o, 2), WBuy(o, 3), BReg(o), BRec
              [t |-> "Send", from |-> o, to |-> "A1", amt |-> 1, denom |-> "nund"] }
 Wrapped(o) == { Exec1(o, m) : m \in {WReg(o), WRec(o), WBuy(o, 2), BReg(o), BRec(o)} }
                 \cup { Exec1(o, Exec1(o, m)) : m \in {WReg(o), BRec(o)} }
+                \* ... or carried by a group proposal that a member (or anyone: admission does not look inside) submits
+                \cup { [t |-> "GExec", member |-> o, msgs |-> <<m>>] : m \in {WRec("grp"), BReg("grp")} }
 Msgs(o) == Base(o) \cup Wrapped(o)
 Seqs(o) == { <<m>> : m \in Msgs(o) }
            \cup (IF MaxLen >= 2 THEN { <<m1, m2>> : m1 \in Msgs(o), m2 \in Msgs(o) } ELSE {})
